@@ -57,7 +57,8 @@ class Probe:
         def compare(I, node, op, a, b):
             if a.sym is None or b.sym is None or a.sym == b.sym:
                 return
-            if a.sym[0] in ("rd", "elem") and b.sym[0] == a.sym[0] and a.sym[1] == b.sym[1]:
+            if (a.sym[0] in ("rd", "elem") and b.sym[0] == a.sym[0] and a.sym[1] == b.sym[1]) or (a.sym[0] == "opq" and b.sym[0] == "opq" and a.sym[1:3] == b.sym[1:3]):
+                # two instances of the same per-team quantity (the rank) at different team positions
                 self.cmps.append(dict(func=I.cur_func(), op=op, a=a.sym, b=b.sym, node=node))
 
         def arith(I, node, opname, a, b):
